@@ -3,12 +3,12 @@ CASES = {}
 
 
 class Case(object):
-    def __init__(self, kind, build, spec, W=None, pre=None):
-        self.kind, self.build, self.spec, self.W, self.pre = kind, build, spec, W, pre
+    def __init__(self, kind, build, spec, W=None, pre=None, lens=None):
+        self.kind, self.build, self.spec, self.W, self.pre, self.lens = kind, build, spec, W, pre, lens
 
 
-def case(kind, spec, W=None, pre=None):
+def case(kind, spec, W=None, pre=None, lens=None):
     def deco(build):
-        CASES[kind] = Case(kind, build, spec, W, pre)
+        CASES[kind] = Case(kind, build, spec, W, pre, lens)
         return build
     return deco
